@@ -57,6 +57,8 @@ var specs = map[string]fnSpec{
 	"signSSH": {"authority/ssh.go", "Authority", map[string]string{"Valid": "check", "callEnrichingWebhooksSSH": "enrich",
 		"isAllowedToSignSSHCertificate": "check", "callAuthorizingWebhooksSSH": "authorize", "CreateCertificate": "sshSign",
 		"storeSSHCertificate": "store"}},
+	"SignSSHAddUser": {"authority/ssh.go", "Authority", map[string]string{"IsValidForAddUser": "check", "Sign": "sshSign",
+		"storeRenewedSSHCertificate": "store"}},
 	"renewSSH": {"authority/ssh.go", "Authority", map[string]string{"authorizeSSHCertificate": "isRevoked", "CreateCertificate": "sshSign",
 		"storeRenewedSSHCertificate": "store"}},
 	"rekeySSH": {"authority/ssh.go", "Authority", map[string]string{"authorizeSSHCertificate": "isRevoked", "CreateCertificate": "sshSign",
@@ -476,7 +478,7 @@ func webhookTable() string {
 				closed, release := closedAddr()
 				defer release()
 				tr := &faultTransport{rec: rec, base: &http.Transport{DisableKeepAlives: true}, closed: closed}
-				cl := &http.Client{Transport: tr, Timeout: 300 * time.Millisecond}
+				cl := &http.Client{Transport: tr, Timeout: 30 * time.Second}
 				wh := &provisioner.Webhook{ID: "t", Name: "t", URL: srv.URL + "/enrich/0", Kind: "ENRICHING"}
 				req, err := webhook.NewRequestBody()
 				if err != nil {
